@@ -33,7 +33,7 @@ MANIFEST = {
     "note": "trusted: the multiprocessing model (exit codes, daemon workers, terminate); fairness after the fault",
     "technique": "deterministic simulation with exception / I/O-error injection at a seeded (item, worker, schedule point); bounded-liveness oracle in virtual time",
 }
-BUDGET = {"quick": (2500, 60), "thorough": (150000, 1500)}
+BUDGET = {"quick": (2500, 60), "thorough": (280000, 1500)}
 REQUIRED_PROBES = {"quick": ["injected_exception"], "thorough": ["injected_exception", "injected_io_error", "injected_unreadable_input", "injected_real_code_failure"]}
 CHUNK = 25
 LIVENESS_BOUND = 600.0
